@@ -4,6 +4,7 @@ package main
 
 import (
 	"fmt"
+	"os"
 	"go/token"
 	"go/types"
 	"math/big"
@@ -132,6 +133,9 @@ func (tr *Translator) lookupIdent(name string) tv {
 			}
 		}
 		if best != nil {
+			if os.Getenv("GOVC_DEBUG") != "" {
+				fmt.Fprintf(os.Stderr, "lookup %s at block %d in %s -> %s = %s (%T) from block %d idx %d\n", name, tr.block.Index, f.fname, best.val.Name(), f.val(best.val).S, best.val, best.block.Index, best.idx)
+			}
 			return tv{f.val(best.val), best.val.Type()}
 		}
 	} else if v, ok := f.params[name]; ok {
@@ -1134,4 +1138,18 @@ func distributeImp(e Expr) []Expr {
 		}
 	}
 	return []Expr{e}
+}
+
+// tryUse: a use clause whose names do not resolve at this program point is skipped there.
+func (tr *Translator) tryUse(u *Clause) (out []string) {
+	defer func() {
+		if r := recover(); r != nil {
+			if _, ok := r.(trErr); ok {
+				out = nil
+				return
+			}
+			panic(r)
+		}
+	}()
+	return tr.useInstance(u)
 }
